@@ -433,11 +433,27 @@ def c05_findings(rv, ev, rec, prev_cache):
     return out
 
 
+def fmt_set(ids):
+    """canonical cpuset-style string of a set of ints (as the repo's cpuset.String())"""
+    ids = sorted(ids)
+    out, i = [], 0
+    while i < len(ids):
+        j = i
+        while j + 1 < len(ids) and ids[j + 1] == ids[j] + 1:
+            j += 1
+        out.append(str(ids[i]) if i == j else '%d-%d' % (ids[i], ids[j]))
+        i = j + 1
+    return ','.join(out)
+
+
 def c12_findings(ev, rec, optout_cpu, optout_mem, told_mems):
     """No adjustment/update tells an opted-out container a cpuset / a different mems."""
     out = []
     rep = rec['reply']
     seq = rec['seq']
+    if rec['op'] == 'CreateContainer' and ((ev.get('ctr') or {}).get('res') or {}).get('mems'):
+        # what the runtime created the container with is what "unchanged" refers to
+        told_mems.setdefault(ev['ctr']['id'], fmt_set(parse_set(ev['ctr']['res']['mems'])))
     items = []
     if rep.get('adjust'):
         items.append(('adjustment', rep['adjust']))
